@@ -157,7 +157,7 @@ pub fn check_frames(main: &ColMatrix<Felt>, cj: &dyn Fn() -> serde_json::Value) 
 pub fn final_memory(case: &Case, program: &vm_core::Program, ctxs: &[u64]) -> Result<BTreeMap<(u32, u64), [u64; 4]>, String> {
     let mut host = case.host();
     let r = vm::catch(|| {
-        let mut p = Process::new(program.kernel().clone(), case.stack_inputs(), &mut host, ExecutionOptions::default());
+        let mut p = Process::new(program.kernel().clone(), case.stack_inputs(), &mut host, crate::vm::capped(ExecutionOptions::default()));
         p.execute(program).map_err(|e| format!("{e}"))?;
         let mut out = BTreeMap::new();
         for (i, c) in ctxs.iter().enumerate() {
@@ -245,7 +245,7 @@ pub fn check_paths(ctx: &Ctx) {
         };
         let exec = |p: &Program| -> Result<Result<(), String>, String> {
             vm::catch(|| {
-                processor::execute(p, vm_core::StackInputs::default(), processor::DefaultHost::default(), ExecutionOptions::default())
+                processor::execute(p, vm_core::StackInputs::default(), processor::DefaultHost::default(), crate::vm::capped(ExecutionOptions::default()))
                     .map(|_| ())
                     .map_err(|e| format!("{:?}", e))
             })
